@@ -239,6 +239,18 @@ pub fn check_link(case: &LinkCase) -> CaseResult {
             if v.mode(&t).ok() != before_mode {
                 return Err(fail("chmod-on-link|target-mode-changed", format!("{:?} -> {:?}", before_mode, v.mode(&t).ok())));
             }
+            // the non-recursive builder form goes through a different path than chown()
+            let rb = v.chown_b(&l).and_then(|b| b.owner(4319, 4320).recurse(false).exec());
+            if v.owner(&t).ok() != before_owner {
+                return Err(fail("chown-on-link|target-owner-changed", format!("chown_b(link).recurse(false): {:?} -> {:?}", before_owner, v.owner(&t).ok())));
+            }
+            if rb.is_ok() && case.stdfs {
+                use std::os::unix::fs::MetadataExt;
+                let md = std::fs::symlink_metadata(&l).map_err(|e| fail("setup", e.to_string()))?;
+                if (md.uid(), md.gid()) != (4319, 4320) {
+                    return Err(fail("chown-on-link|link-owner-not-changed", format!("chown_b(link).recurse(false): {:?}", (md.uid(), md.gid()))));
+                }
+            }
             let r = v.chown(&l, 4321, 4322);
             if v.owner(&t).ok() != before_owner {
                 return Err(fail("chown-on-link|target-owner-changed", format!("{:?} -> {:?}", before_owner, v.owner(&t).ok())));
